@@ -305,6 +305,7 @@ int main (int argc, char **argv)
     }
     else printf ("UNKNOWN_CASE");
     printf ("\n");
+    fflush (stdout);            /* a stop in the next case must be attributed to that case */
   }
   fclose (in);
   rc = sc_MPI_Finalize ();
